@@ -172,7 +172,12 @@ def run(repo, rep):
         if len(subs) != 1:
             p2.append('%d store sub-operations for one instance' % len(subs))
             continue
-        if _copy_canon(subs[0].callee) != '%s.get_scu(%s.SOPClassUID)' % (assoc, item):
+        got_ = _copy_canon(subs[0].callee)
+        want_tail = '.get_scu(%s.SOPClassUID)' % item
+        derived = got_.startswith('ENTER(asce.ae.request_association(') and got_.endswith(want_tail) and (
+            ('%s[0]' % H) in got_[:-len(want_tail)] or
+            ('msg.move_destination' in got_[:-len(want_tail)] and any(cn in ('+%s[0] is None' % H, '-%s[0] is not None' % H) for cn in subs[0].conds)))
+        if got_ != '%s.get_scu(%s.SOPClassUID)' % (assoc, item) and not derived:
             p2.append('sub-operation performed by %s, expected the storage service of the sub-association to the returned destination' % subs[0].callee)
         if not subs[0].args or subs[0].args[0] != item:
             p2.append('sub-operation stores %s, not the current instance' % (subs[0].args[:1],))
@@ -251,6 +256,11 @@ def run(repo, rep):
         fl = finals_[0].fields(finals_[0].args[0])
         moved = any(e.kind == 'loop' and e.line == lp.lineno for e in s.trail)
         failed_early = any(cn.startswith('exc:EventHandlingError') for cn in s.conds) and not moved
+        # ... or the request was refused before anything was moved (destination unknown): a failure status, no sub-association
+        fconst = status_constant(repo, fl.get('status', ''))
+        if not moved and not any(e.kind in ('request_association', 'subop') for e in s.trail) and fconst is not None \
+                and classify(repo, fconst[0], 'CMoveRSPMessage') == 'Failure':
+            failed_early = True
         if not nothing and not failed_early:
             comp = fl.get('num_of_completed_sub_ops', '')
             rem = fl.get('num_of_remaining_sub_ops', '')
